@@ -22,12 +22,15 @@ RULE = ('(a) random histories of 1-12 deferred-writer operations over 1-4 paths 
         '#name.N# backups): open w / a / w+ / r+ / a+, re-open of a pending path in w / a / r+ / r, interleaved writes, '
         'then write(), close(), or a second write(); the destination directory is snapshotted after every operation. '
         '(b) for a subset of histories every crash point of finalisation is enumerated: N+1 forked children, child k dies '
-        '(os._exit) at the k-th file-system audit event of write(); repeated with the temporary directory on another '
+        '(os._exit) at the k-th file-system audit event of write(), plus N children in which the k-th event is aborted by an '
+        'exception raised from the audit hook (KeyboardInterrupt / OSError ENOSPC alternating) so that any clean-up code of the '
+        'writer runs; repeated with the temporary directory on another '
         'file system (/dev/shm) so that shutil.move copies. (c) every library writer with default arguments under the audit '
         'hook. (d) the real CLI in a scratch directory on inputs engineered to emit a known multiset of warnings x -maxwarn '
         'specifications, with pre-existing output files. Non-trivial history = >= 1 pre-existing destination and >= 2 '
         'pending files. distinct = distinct histories / (history, crash point) pairs / CLI scenarios.')
-ASSUMPTIONS = ['crash model: process death between two Python-level file-system calls (plus a partially copied file when the '
+ASSUMPTIONS = ['interruption model: process death between two Python-level file-system calls, or an exception delivered at such a '
+               'call (plus a partially copied file when the '
                'temporary directory is on another file system); power loss / fsync ordering is out of reach',
                'a path first opened in append mode and later re-opened in write mode has no agreed meaning: not generated',
                'an append target counts as intact when its old bytes are a prefix of the file']
@@ -48,7 +51,16 @@ def _hook(event, args):
         return
     if _AUDIT['countdown'] is not None:
         if _AUDIT['countdown'] == 0:
-            os._exit(77)
+            action = _AUDIT.get('action', 'exit')
+            if action == 'exit':
+                os._exit(77)
+            # an interruption the program sees: the audited call is aborted by an exception and whatever clean-up code the
+            # writer has runs (un-interrupted) afterwards
+            _AUDIT['countdown'] = None
+            _AUDIT['log'].append(('INTERRUPTED-BEFORE ' + event, paths, None))
+            if action == 'kbd':
+                raise KeyboardInterrupt()
+            raise OSError(28, 'No space left on device (injected)')
         _AUDIT['countdown'] -= 1
     mode = args[1] if event == 'open' and len(args) > 1 else None
     _AUDIT['log'].append((event, paths, mode))
@@ -268,19 +280,21 @@ def crash_enumeration(hist, b, tmp_root=None):
             w.open_files.clear()
             w.open_files.extend(map(list, saved_open))
 
-        def child(k):
+        def child(k, action='exit'):
             pid = os.fork()
             if pid == 0:
                 try:
                     _AUDIT['roots'] = (dest, tmpd)
                     _AUDIT['log'] = []
                     _AUDIT['countdown'] = k
+                    _AUDIT['action'] = action
                     _AUDIT['on'] = True
                     w.write()
                     _AUDIT['on'] = False
                     os._exit(0 if k is None else 50)      # 50: finished before the k-th event
                 except BaseException:
-                    os._exit(66)
+                    interrupted = any(e[0].startswith('INTERRUPTED') for e in _AUDIT['log'])
+                    os._exit(78 if interrupted else 66)
             _, status = os.waitpid(pid, 0)
             return os.waitstatus_to_exitcode(status)
 
@@ -308,19 +322,21 @@ def crash_enumeration(hist, b, tmp_root=None):
         if n_events < 0:
             return ('finalise/exception', {}), 0
         modes = {p: e['first'] for p, e in pending.items()}
-        for k in range(n_events + 1):
+        points = [(k, 'exit') for k in range(n_events + 1)] + [(k, ('kbd', 'oserror')[k % 2]) for k in range(n_events)]
+        for k, action in points:
             restore()
-            code = child(k)
+            code = child(k, action)
             b.hits += 1
+            b.feat('interruption_' + {'exit': 'process_death', 'kbd': 'KeyboardInterrupt', 'oserror': 'OSError'}[action])
             if code == 66:
-                return ('crash/child-raised', {'k': k}), k
+                return ('crash/child-raised', {'k': k, 'action': action}), k
             snap = snapshot(dest)
             for name, old in pre_bytes.items():
                 ok = any(v == old for n, v in snap.items() if n == name or (n.startswith('#' + name + '.') and n.endswith('#')))
                 if not ok and 'a' in modes.get(name, ''):
                     ok = snap.get(name, b'').startswith(old)
                 if not ok:
-                    return ('crash/pre-existing-file-lost', {'crash_point': k, 'of': n_events, 'file': name,
+                    return ('crash/pre-existing-file-lost', {'crash_point': k, 'of': n_events, 'file': name, 'interruption': action,
                                                              'directory_after': {n: v.decode(errors='replace')[:40] for n, v in snap.items()},
                                                              'first_modes': modes}), k
         return None, n_events + 1
